@@ -3,9 +3,10 @@
 usage: seedtest.py <patch.diff> <Cxx> [<Cyy> ...]   — prints which checks raised a VIOLATION."""
 import subprocess, sys, os
 ROOT = os.path.dirname(os.path.dirname(os.path.abspath(__file__)))
+REPO = os.environ.get("VERIF_REPO", "/repo")   # a scratch worktree can stand in for /repo (the checks honour VERIF_REPO too)
 patch = os.path.abspath(sys.argv[1]); props = sys.argv[2:]
-assert subprocess.run(["git", "-C", "/repo", "status", "--porcelain"], capture_output=True, text=True).stdout.strip() == "", "/repo not clean"
-r = subprocess.run(["git", "-C", "/repo", "apply", patch])
+assert subprocess.run(["git", "-C", REPO, "status", "--porcelain"], capture_output=True, text=True).stdout.strip() == "", REPO + " not clean"
+r = subprocess.run(["git", "-C", REPO, "apply", patch])
 if r.returncode: sys.exit("patch does not apply")
 res = {}
 try:
@@ -15,6 +16,6 @@ try:
         res[p] = (r.returncode, v)
         print(p, "exit", r.returncode, "|", "; ".join(v[:2]) if v else "no violation")
 finally:
-    subprocess.run(["git", "-C", "/repo", "checkout", "--", "."])
+    subprocess.run(["git", "-C", REPO, "checkout", "--", "."])
     # restore generated Lean files and evidence to the clean-tree state
     subprocess.run(["git", "-C", ROOT, "checkout", "--", "lean/ZixModel/Generated", "evidence"])
